@@ -5,6 +5,7 @@ import (
 	sdk "github.com/cosmos/cosmos-sdk/types"
 	proto "github.com/cosmos/gogoproto/proto"
 
+	clienttypes "github.com/bianjieai/tibc-go/modules/tibc/core/02-client/types"
 	packettypes "github.com/bianjieai/tibc-go/modules/tibc/core/04-packet/types"
 	routingtypes "github.com/bianjieai/tibc-go/modules/tibc/core/26-routing/types"
 	"github.com/bianjieai/tibc-go/modules/tibc/core/exported"
@@ -25,6 +26,33 @@ type regCodec struct {
 func (c *regCodec) MarshalInterface(i proto.Message) ([]byte, error) {
 	c.objs = append(c.objs, i)
 	return []byte{byte(len(c.objs))}, nil
+}
+
+// MustMarshal / MustUnmarshal for the plain messages the client keeper stores (relayer lists).
+func (c *regCodec) MustMarshal(o proto.Message) []byte {
+	if ir, ok := o.(*clienttypes.IdentifiedRelayers); ok {
+		cp := *ir
+		cp.Relayers = append([]string{}, ir.Relayers...)
+		c.objs = append(c.objs, &cp)
+		return []byte{byte(len(c.objs))}
+	}
+	panic("regCodec: unsupported message")
+}
+
+func (c *regCodec) MustUnmarshal(bz []byte, ptr proto.Message) {
+	if len(bz) == 0 {
+		return
+	}
+	if len(bz) != 1 || int(bz[0]) < 1 || int(bz[0]) > len(c.objs) {
+		panic("regCodec: bad handle")
+	}
+	src, ok := c.objs[int(bz[0])-1].(*clienttypes.IdentifiedRelayers)
+	dst, ok2 := ptr.(*clienttypes.IdentifiedRelayers)
+	if !ok || !ok2 {
+		panic("regCodec: type mismatch")
+	}
+	dst.ChainName = src.ChainName
+	dst.Relayers = append([]string{}, src.Relayers...)
 }
 
 func (c *regCodec) UnmarshalInterface(bz []byte, ptr interface{}) error {
